@@ -32,3 +32,10 @@ func init() {
 func VerifWriteStateTokenBatch(w *ipc.Writer, schema *arrow.Schema, token, callToken []byte) error {
 	return writeStateTokenBatch(w, schema, token, callToken)
 }
+
+// VerifCheckIPCStreamFraming exposes checkIPCStreamFraming, the allocation-free
+// guard the byte-slice wire helpers apply to the stream starting at data[0].
+func VerifCheckIPCStreamFraming(data []byte) (int, error) { return checkIPCStreamFraming(data) }
+
+// VerifCheckIPCFraming exposes checkIPCFraming (every concatenated stream).
+func VerifCheckIPCFraming(data []byte) error { return checkIPCFraming(data) }
